@@ -100,6 +100,8 @@ fn run_early(sc: &Value) {
             }
         }
     }));
+    // thousands of lifetimes: the OS-level events are not recorded here (the flush hook still fires)
+    crate::interpose::QUIET_ALL.store(true, SeqCst);
     let mut failures = 0u64;
     let mut first = String::new();
     for _ in 0..rounds {
@@ -134,6 +136,7 @@ fn run_early(sc: &Value) {
         }
     }
     *crate::interpose::FLUSH_HOOK.lock().unwrap() = None;
+    crate::interpose::QUIET_ALL.store(false, SeqCst);
     emit(json!({"ev":"Early","rounds":rounds,"n":n,"failures":failures,"first":first,
         "early_calls":EARLY_CALLS.load(SeqCst),"early_bad":EARLY_BAD.load(SeqCst)}));
 }
